@@ -424,6 +424,20 @@ def emit (legacy : Bool) (r : Route) (v : Variant) (u : User) : Except Err (List
     | .getFunc => if takesFunc v then (kwargsConfig (baseVariant v) u).map partialCall else .error .typeError
   runVariant legacy v kw
 
+/-- `functools.partial(f, **frozen)(x, **call)` binds `{**frozen, **call}`: a keyword given at call time REPLACES the
+    frozen one (whole value — an option dictionary is not merged key by key); frozen keywords the call does not
+    repeat stay -/
+def mergeKw : Assoc → Assoc → Assoc
+  | frozen, .nil => frozen
+  | frozen, .cons k v r => mergeKw (frozen.insert k v) r
+
+/-- route D — both deliveries combined (second layer): `cfg = get_config(inner)` edited with the top-level keywords,
+    `sift_second_layer(IA, sift_func=cfg.get_func(), sift_args={'imf_opts': …, 'envelope_opts': …, 'extrema_opts': …})`,
+    i.e. `partial(inner, **cfg)(IA[:, ii], **sift_args)` -/
+def emitFuncArgs (legacy : Bool) (inner : Variant) (u : User) : Except Err (List StageCall) := do
+  let frozen ← kwargsConfig (baseVariant inner) { top := u.top, imf := none, env := none, ext := none }
+  runVariant legacy (.second inner) (mergeKw frozen (kwargsDirect { top := .nil, imf := u.imf, env := u.env, ext := u.ext }))
+
 /-! ### the options a stage actually works with -/
 
 def eraseKeys (ks : List String) (a : Assoc) : Assoc := ks.foldl (fun acc p => acc.erase p.toList) a
@@ -575,10 +589,14 @@ def handle (o : Op) : Option String :=
         | "direct" => pure Route.direct
         | "unpack" => pure Route.unpackCfg
         | "get_func" => pure Route.getFunc
+        | "get_func+args" => pure Route.getFunc      -- handled below (`emitFuncArgs`)
         | _ => return "bad-op"
       if second = 2 ∧ vn ≠ "mask_sift" then return "bad-op"
       let v := if second = 2 then Variant.maskSecond else if second != 0 then Variant.second v0 else v0
-      match emit (legacy != 0) r v { top, imf, env, ext } with
+      let res := if rt = "get_func+args" then
+          (if second = 1 then emitFuncArgs (legacy != 0) v0 { top, imf, env, ext } else .error .typeError)
+        else emit (legacy != 0) r v { top, imf, env, ext }
+      match res with
       | .error e => return s!"err {e.name}"
       | .ok cs =>
         let eff := cs.map effective
